@@ -119,6 +119,11 @@ pub enum Instr {
     /// drop this task's sender of the channel in slot c
     Closec { c: u32 },
     Recv { c: u32, dst: u32, #[serde(rename = "else")] els: u32 },
+    /// non-blocking read of the stream in slot s (`next().now_or_never()`): the item, or 0 when there is
+    /// none right now (or never will be); the task does not suspend
+    Trynext { s: u32, dst: u32 },
+    /// the same for the task-to-task channel in slot c
+    Tryrecv { c: u32, dst: u32 },
 }
 
 pub fn apply_f(f: &str, v: u32) -> u32 {
@@ -540,6 +545,18 @@ pub fn run_script(
                 }
                 Instr::Yield => {
                     YieldOnce(false).await;
+                    pc += 1;
+                }
+                Instr::Trynext { s, dst } => {
+                    let st = env.streams[*s as usize].clone().expect("stream not open");
+                    let item = st.lock().unwrap().next().now_or_never();
+                    env.regs[*dst as usize] = item.flatten().unwrap_or(0);
+                    pc += 1;
+                }
+                Instr::Tryrecv { c, dst } => {
+                    let rx = env.chans[*c as usize].as_ref().expect("no channel").rx.clone();
+                    let item = rx.lock().unwrap().next().now_or_never();
+                    env.regs[*dst as usize] = item.flatten().unwrap_or(0);
                     pc += 1;
                 }
                 Instr::Chan { c } => {
